@@ -13,7 +13,6 @@ void
 harness(void)
 {
 	u8 tb[3][3], body[BL + 1];
-	memset(&sock, 0, sizeof(sock));
 	sub0_sock_init(&sock, NULL);
 	ND_BYTES(body, BL);
 	int exp = 0;
